@@ -43,7 +43,7 @@ PROFILES = {
     "C01": dict(notw=[(0, 1), (1, 8), (1, 3)], ops=40, edge_types=True, leave_w=2, ctl_w=6,
                 pub_w=10, noise_w=1, clock_w=1),
     "C05": dict(notw=[(0, 1), (1, 8)], ops=60, edge_types=False, leave_w=1, ctl_w=4, pub_w=16,
-                noise_w=1, clock_w=3),
+                noise_w=1, clock_w=3, early=4),
     "C19": dict(notw=[(0, 1), (1, 8)], ops=50, edge_types=False, leave_w=2, ctl_w=14, pub_w=5,
                 noise_w=4, clock_w=1),
     "C14": dict(notw=[(1, 3), (1, 2), (1, 8)], ops=40, edge_types=False, leave_w=4, ctl_w=5,
@@ -132,6 +132,12 @@ class PubSubRun:
         if proto == "v1":
             multi = False
             nm = b""
+        if self.prof.get("early", 0) and ch.flag("con.early", 1, self.prof["early"]):
+            # control frames before the handshake: the manager handles (and numbers) them all the same
+            for _ in range(1 + ch.pick("con.nearly", 2)):
+                a.send(C.MT_SUBSCRIBE, C.pack_sub(self.pick_type("con.earlyt")), src=0)
+            self.res.probes["pre_handshake_frames"] += 1
+            self.t(f"{a.name} subscribes before connecting")
         a.handshake(proto, req_id=rid, logger=logger, allow_multiple=multi, name=nm,
                     pid=5000 + len(self.actors))
         self.t(f"{a.name} connect proto={proto} id={rid} logger={logger} multi={multi} name={nm!r}")
